@@ -368,3 +368,131 @@ def render(prog, style):
 
 
 STYLES = ['spaced', 'comma', 'minimal', 'exponent', 'implicit', 'arcflags', 'wsp', 'plus']
+
+
+# ====================================================================== transforms & shapes (reference)
+
+def _mat_mul(A, B):
+    return [[sum(A[i][k] * B[k][j] for k in range(3)) for j in range(3)] for i in range(3)]
+
+
+IDENT = [[1.0, 0.0, 0.0], [0.0, 1.0, 0.0], [0.0, 0.0, 1.0]]
+
+
+def transform_list(s):
+    """SVG transform attribute -> 3x3 matrix (row-major lists), per SVG 1.1 section 7.6:
+    the list is applied left to right as successive nestings (matrix product in the order written)."""
+    if not s:
+        return [row[:] for row in IDENT]
+    M = [row[:] for row in IDENT]
+    i = 0
+    n = len(s)
+    while i < n:
+        while i < n and (s[i] in WSP or s[i] == ','):
+            i += 1
+        if i >= n:
+            break
+        j = i
+        while j < n and (s[j].isalpha()):
+            j += 1
+        name = s[i:j]
+        while j < n and s[j] in WSP:
+            j += 1
+        if j >= n or s[j] != '(':
+            raise Ungrammatical('transform syntax at %d in %r' % (j, s))
+        k = s.index(')', j)
+        args = [float(x) for x in s[j + 1:k].replace(',', ' ').split()]
+        i = k + 1
+        if name == 'matrix' and len(args) == 6:
+            a, b, c, d, e, f = args
+            T = [[a, c, e], [b, d, f], [0.0, 0.0, 1.0]]
+        elif name == 'translate' and len(args) in (1, 2):
+            T = [[1.0, 0.0, args[0]], [0.0, 1.0, args[1] if len(args) == 2 else 0.0], [0.0, 0.0, 1.0]]
+        elif name == 'scale' and len(args) in (1, 2):
+            T = [[args[0], 0.0, 0.0], [0.0, args[1] if len(args) == 2 else args[0], 0.0], [0.0, 0.0, 1.0]]
+        elif name == 'rotate' and len(args) in (1, 3):
+            a = math.radians(args[0])
+            c, sn = math.cos(a), math.sin(a)
+            cx, cy = (args[1], args[2]) if len(args) == 3 else (0.0, 0.0)
+            T = [[c, -sn, cx - c * cx + sn * cy], [sn, c, cy - sn * cx - c * cy], [0.0, 0.0, 1.0]]
+        elif name == 'skewX' and len(args) == 1:
+            T = [[1.0, math.tan(math.radians(args[0])), 0.0], [0.0, 1.0, 0.0], [0.0, 0.0, 1.0]]
+        elif name == 'skewY' and len(args) == 1:
+            T = [[1.0, 0.0, 0.0], [math.tan(math.radians(args[0])), 1.0, 0.0], [0.0, 0.0, 1.0]]
+        else:
+            raise Ungrammatical('unknown transform %r' % name)
+        M = _mat_mul(M, T)
+    return M
+
+
+def apply_matrix(M, z):
+    return complex(M[0][0] * z.real + M[0][1] * z.imag + M[0][2], M[1][0] * z.real + M[1][1] * z.imag + M[1][2])
+
+
+def _ellipse_pts(cx, cy, rx, ry, a0, a1, n=300):
+    import numpy as _np
+    a = _np.linspace(a0, a1, n + 1)
+    return list((cx + rx * _np.cos(a)) + 1j * (cy + ry * _np.sin(a)))
+
+
+def sample_segments(segs, n=600):
+    """abstract segments (from interpret) -> list of polylines (one per segment)"""
+    from mc import refgeom
+    out = []
+    for s in segs:
+        k = s[0]
+        if k == 'L':
+            out.append([s[1], s[2]])
+        elif k in 'QC':
+            pts = list(s[1:])
+            out.append([refgeom.de_casteljau(pts, i / n) for i in range(n + 1)])
+        else:
+            _, p0, rx, ry, rot, la, sw, p1 = s
+            par = refgeom.arc_center_params(p0, complex(rx, ry), rot, la, sw, p1)
+            out.append([refgeom.arc_point(par, i / n) for i in range(n + 1)])
+    return out
+
+
+def shape_polylines(tag, at):
+    """reference geometry of an SVG basic shape / path element as polylines (SVG 1.1 chapter 9)"""
+    g = lambda k, d=0.0: float(at.get(k, d))
+    if tag == 'path':
+        return sample_segments(interpret(parse(at.get('d', ''))))
+    if tag == 'line':
+        return [[complex(g('x1'), g('y1')), complex(g('x2'), g('y2'))]]
+    if tag in ('polyline', 'polygon'):
+        nums = [float(x) for x in at.get('points', '').replace(',', ' ').split()]
+        pts = [complex(nums[i], nums[i + 1]) for i in range(0, len(nums) - 1, 2)]
+        if tag == 'polygon' and pts:
+            pts = pts + [pts[0]]
+        return [pts]
+    if tag == 'circle':
+        return [_ellipse_pts(g('cx'), g('cy'), g('r'), g('r'), 0.0, 2 * math.pi, 1500)]
+    if tag == 'ellipse':
+        return [_ellipse_pts(g('cx'), g('cy'), g('rx'), g('ry'), 0.0, 2 * math.pi, 1500)]
+    if tag == 'rect':
+        x, y, w, h = g('x'), g('y'), g('width'), g('height')
+        rx, ry = at.get('rx'), at.get('ry')
+        if rx is None and ry is None:
+            rx = ry = 0.0
+        elif rx is None:
+            rx = ry = float(ry)
+        elif ry is None:
+            rx = ry = float(rx)
+        else:
+            rx, ry = float(rx), float(ry)
+        rx, ry = min(rx, w / 2.0), min(ry, h / 2.0)
+        if rx == 0 or ry == 0:
+            return [[complex(x, y), complex(x + w, y), complex(x + w, y + h), complex(x, y + h), complex(x, y)]]
+        hp = math.pi / 2
+        out = []
+        out.append([complex(x + rx, y), complex(x + w - rx, y)])
+        out.append(_ellipse_pts(x + w - rx, y + ry, rx, ry, -hp, 0.0))
+        out.append([complex(x + w, y + ry), complex(x + w, y + h - ry)])
+        out.append(_ellipse_pts(x + w - rx, y + h - ry, rx, ry, 0.0, hp))
+        out.append([complex(x + w - rx, y + h), complex(x + rx, y + h)])
+        out.append(_ellipse_pts(x + rx, y + h - ry, rx, ry, hp, 2 * hp))
+        out.append([complex(x, y + h - ry), complex(x, y + ry)])
+        out.append(_ellipse_pts(x + rx, y + ry, rx, ry, 2 * hp, 3 * hp))
+        return out
+    raise ValueError(tag)
